@@ -34,6 +34,8 @@ def run(ctx):
         la, lb, ms, mp = [], [], [], {}
         for tpl, sample in g:
             s = rng.choice(pool + [textgen.make_secret(rng, textgen.classify(sample))])
+            while tpl.startswith("set community") and textgen.classify(s) == "numeric":      # numeric BGP communities are skipped on purpose
+                s = rng.choice(pool)
             enc = rng.choice(secretlib.ENCLOSE[:7]) if '"' not in tpl and rng.random() < 0.3 else ("", "")
             ind, tr = rng.choice(["", " ", "    "]), rng.choice(["", " trailing", " "])
             if "{} " in tpl + " " and tr == " trailing" and tpl.endswith("{}") is False:
@@ -42,6 +44,13 @@ def run(ctx):
             la.append(secretlib.build(tpl, s, ind, tr, enc))
             lb.append(secretlib.build(tpl, s2, ind, tr, enc))
             ms.append((tpl, s, s2, enc, tr))
+        # md5-crypt secrets whose salt field is longer than the 8 characters md5-crypt uses
+        for tpl in ("enable secret 5 {}", "username Someone secret 5 {}"):
+            s = "$1$" + "".join(rng.choice(textgen.MD5CHARS) for _ in range(rng.choice([9, 10, 12]))) + "$" + "".join(rng.choice(textgen.MD5CHARS) for _ in range(22))
+            s2 = "$1$" + "".join(rng.choice(textgen.MD5CHARS) for _ in range(len(s.split("$")[2]))) + "$" + "".join(rng.choice(textgen.MD5CHARS) for _ in range(22))
+            la.append(secretlib.build(tpl, s))
+            lb.append(secretlib.build(tpl, s2))
+            ms.append((tpl, s, s2, ("", ""), ""))
         # standalone hash-shaped tokens surrounded by arbitrary keywords
         for cls in ("md5", "juniper"):
             s = textgen.make_secret(rng, cls)
